@@ -82,12 +82,16 @@ def r04_4(ctx):
         unfinished = q.outcome_edges(je, jobx + '.ready()', False)
         gone = q.outcome_edges(je, q.norm_guard(je, c.args[1], True)[0], True)
         # nodes reached after both outcomes within one iteration
-        after_gone = cfg.reach([b for (a, b, l) in gone], block_nodes=heads, include_src=True, skip_labels=('x',))
-        starts = [b for (a, b, l) in unfinished if a in after_gone or b in after_gone]
-        r = cfg.reach(starts, block_nodes={x.id for x in fails}, include_src=True, skip_labels=('x',))
+        # from `owner gone` the only way to the next job without failing this one is `job.ready()` answering yes
+        finished = q.outcome_edges(je, jobx + '.ready()', True)
+        starts = [b for (a, b, l) in gone]
+        q.need(unfinished and finished, 'reaper: test of %s.ready() not found' % jobx)
+        r = cfg.reach(starts, block_nodes={x.id for x in fails}, block_edges=finished, include_src=True,
+                      skip_labels=('x',))
         ok = bool(starts) and not (r & heads) and cfg.exit.id not in r
         w = None if ok else cfg.path(starts, list((r & heads) | ({cfg.exit.id} & r)),
-                                     block_nodes={x.id for x in fails}, skip_labels=('x',))
+                                     block_nodes={x.id for x in fails}, block_edges=finished,
+                                     skip_labels=('x',))
         ctx.ob('R04.4', 'reaper:unfinished-job-with-gone-owner-is-always-failed', ok, je, c,
                'after `owner gone` and `not job.ready()` every path reaches on_job_process_lost or _set_terminated '
                '(whatever the exit status)' if ok else
@@ -220,10 +224,20 @@ def run(ctx):
     # the loss must still be reported while the pool shuts down: the drain loop of the result handler
     from .c07 import r07_3
     r07_3(ctx)
+    # the owner the reaper matches against is recorded for every job a worker really runs
+    from .c03 import r03_5
+    r03_5(ctx)
+    from .c05 import helpers_hold_live_objects
+    helpers_hold_live_objects(ctx, 'R04.8')
 
 
 _P = 'billiard/pool.py'
 MUTANTS = [
+    ('lost-only-for-nonzero-status', _P, "                    if not job.ready():\n                        exitcode = exitcodes.get(acked_by_gone) or 0\n",
+     "                    exitcode = exitcodes.get(acked_by_gone)\n                    if exitcode and not job.ready():\n", 'R04.4'),
+    ('cancelled-refused-without-handshake', _P, "            if self._cancelled and self._send_ack:\n", "            if self._cancelled:\n", 'R03.5'),
+    ('task-feeder-snapshots-the-worker-list', _P, "        self.put = put\n        self.outqueue = outqueue\n        self.pool = pool\n",
+     "        self.put = put\n        self.outqueue = outqueue\n        self.pool = list(pool)\n", 'R04.8'),
     ('reaper-reads-worker-pid', _P, "                    self.on_job_process_down(job, acked_by_gone)\n",
      "                    self.on_job_process_down(job, job._worker_pid)\n", 'R04.1'),
     ('unordered-drops-failure', _P, "    def _set(self, i, obj):\n        with self._cond:\n            self._items.append(obj)\n            self._index += 1\n",
@@ -253,6 +267,11 @@ MUTANTS = [
      "                if exitcode not in (EX_OK,) and \\\n                        not getattr(worker, '_controlled_termination', False):", 'R04.7'),
 ]
 TWINS = [
+    ('finished-job-skipped-with-continue', _P,
+     "                    if not job.ready():\n                        exitcode = exitcodes.get(acked_by_gone) or 0\n                        proc = cleaned.get(acked_by_gone)\n                        if proc and getattr(proc, '_job_terminated', False):\n                            job._set_terminated(exitcode)\n                        else:\n                            self.on_job_process_lost(\n                                job, acked_by_gone, exitcode,\n                            )\n",
+     "                    if job.ready():\n                        continue\n                    exitcode = exitcodes.get(acked_by_gone) or 0\n                    proc = cleaned.get(acked_by_gone)\n                    if proc and getattr(proc, '_job_terminated', False):\n                        job._set_terminated(exitcode)\n                    else:\n                        self.on_job_process_lost(\n                            job, acked_by_gone, exitcode,\n                        )\n"),
+    ('exit-status-looked-up-before-the-ready-test', _P, "                    if not job.ready():\n                        exitcode = exitcodes.get(acked_by_gone) or 0\n",
+     "                    exitcode = exitcodes.get(acked_by_gone) or 0\n                    if not job.ready():\n"),
     ('grace-ge', _P, "            if now - lost_time > job._lost_worker_timeout:", "            if now - lost_time >= job._lost_worker_timeout:"),
     ('grace-flipped', _P, "            if now - lost_time > job._lost_worker_timeout:", "            if job._lost_worker_timeout < now - lost_time:"),
     ('cleaned-test-unaliased', _P, "            if popen is None or exitcode is not None:\n                # worker exited",
